@@ -136,7 +136,26 @@ StmtFrags ==
   {FStmt("break", ""), FStmt("continue", ""), FStmt("asm", ""), FStmt("empty", "")} \cup
   {FStmt("return", v) : v \in {"none", "gi", "gd", "gp", "gq", "gs", "gt", "k0", "gld", "gcp"}}
 CtlFrags == {FCtl(k, c) : k \in {"if", "while", "do", "for", "switch"}, c \in {"gi", "gd", "gp", "gs", "gb", "gld", "ga"}}
-StmtForms == {"stmt", "ctl"}
+(* A whole switch statement with two case labels: `switch (ctl) { case A: ; case B: ; }`.                              *)
+(* ct: type of the controlling expression (CtlVar gives the object used).  A case constant is the VALUE k + m * 2^32  *)
+(* (k small, m one of the tags below; p32 stands for m = 2^32, i.e. k + 2^64) WRITTEN as a constant of type ty        *)
+(* (int, unsigned int, long long, unsigned long long), as one literal (wr = lit) or as `M + k` (wr = sum).            *)
+(* 2^32 multiples never enter TLC's 32-bit integers: equality after conversion is decided on (k, m-tag).              *)
+CtlVar == [bool |-> "gb", char |-> "gch", short |-> "gsh", int |-> "gi", unsigned |-> "gun", long |-> "glo", ulong |-> "gul"]
+CtlTypes == DOMAIN CtlVar
+MTags == {"0", "1", "-1", "2", "max31", "min31", "p32"}     \* m = 0, 1, -1, 2, 0x7fffffff, -0x80000000, 2^32
+KC(k, m, ty, wr) == [k |-> k, m |-> m, ty |-> ty, wr |-> wr]
+WellWritten(c) ==
+  /\ CASE c.ty = "int" -> c.m = "0"
+        [] c.ty = "uint" -> (c.m = "0" /\ c.k >= 0) \/ (c.m = "1" /\ c.k < 0)
+        [] c.ty = "ll" -> c.m # "p32" /\ ~(c.m = "min31" /\ c.k < 0)
+        [] c.ty = "ull" -> c.m \in {"1", "2", "max31"} \/ (c.m = "0" /\ c.k >= 0) \/ (c.m = "p32" /\ c.k < 0)
+        [] OTHER -> FALSE
+  /\ c.wr = "sum" => (c.ty = "ll" /\ c.m \notin {"0"})
+CaseConsts(ks) == {c \in {KC(k, m, ty, wr) : k \in ks, m \in MTags, ty \in {"int", "uint", "ll", "ull"}, wr \in {"lit", "sum"}} : WellWritten(c)}
+FSwCase(ct, a, b) == [form |-> "swcase", ct |-> ct, a |-> a, b |-> b]
+SwCaseFrags == UNION {{FSwCase(ct, KC(k, "0", "int", "lit"), c) : c \in CaseConsts({k, k + 1})} : ct \in CtlTypes, k \in {-1, 1, 7}}
+StmtForms == {"stmt", "ctl", "swcase"}
 
 (* ---- declaration fragments ---------------------------------------------------------- *)
 FSpec(kw)      == [form |-> "spec", kw |-> kw]
@@ -267,7 +286,7 @@ MinvFrags == {FMinvM(n, c, m) : n \in 0..3, c \in BOOLEAN, m \in {"MF", "MG"}}
 DirForms == {"dir"}
 
 None == [form |-> "none"]
-AllFrags == ExprFrags \cup StmtFrags \cup CtlFrags \cup DeclFrags \cup DirFrags \cup MinvFrags
+AllFrags == ExprFrags \cup StmtFrags \cup CtlFrags \cup SwCaseFrags \cup DeclFrags \cup DirFrags \cup MinvFrags
 
 (* "drop": the fragment `of` with the last occurrence of token tok removed from its C spelling.  Closers(f) lists the  *)
 (* tokens of f's spelling whose removal can never leave a program derivable from the grammar: closing brackets (the     *)
